@@ -53,6 +53,70 @@ def _poly_wv(expr, env, w_names, v_names, old=None):
     return to_poly(expr, leaf, ("float", "sum", "np.sum", "int"))
 
 
+def check_stats_add(ctx, rule, m):
+    """Statistics.__add__: every additive field is self.f + other.f, min / max combined with min / max, median dropped."""
+    S = m.cls("Statistics")
+    add = S.methods.get("__add__")
+    if add is None:
+        raise AnalysisError("Statistics.__add__ not found")
+    ctx.saw(add)
+    o = [p for p in add.params() if p != "self"][0]
+    ctor = [c for c in calls_in(add.node) if U(c.func) == "Statistics" and c.keywords]
+    repl_ = [c for c in calls_in(add.node) if call_is(c, "replace") and c.args and U(c.args[0]) in ("self", o)]
+    if ctor:
+        kws = {k.arg: U(k.value) for k in ctor[-1].keywords}
+        inherited = None
+    elif repl_:
+        kws = {k.arg: U(k.value) for k in repl_[-1].keywords}
+        inherited = U(repl_[-1].args[0])
+    else:
+        raise AnalysisError("Statistics.__add__: neither Statistics(...) nor dataclasses.replace(...) result found")
+
+    def got(f):
+        if f in kws:
+            return kws[f]
+        return f"{inherited}.{f} (inherited unchanged from `{inherited}` by dataclasses.replace)" if inherited else None
+    for f in ("sum", "sum2", "weight"):
+        ctx.check(kws.get(f) in (f"self.{f} + {o}.{f}", f"{o}.{f} + self.{f}"), rule, f"Statistics.__add__:{f}",
+                  f"{f} = self.{f} + other.{f}", f"{f} combined as `{got(f)}`", add.where)
+    for f in ("min", "max"):
+        ctx.check(kws.get(f) in (f"{f}(self.{f}, {o}.{f})", f"{f}({o}.{f}, self.{f})"), rule, f"Statistics.__add__:{f}",
+                  f"{f} = {f}(self.{f}, other.{f})", f"{f} combined as `{got(f)}` - the merge is not symmetric in its operands", add.where)
+    med = kws.get("median")
+    ctx.check(med == "np.nan" or (med is None and inherited is None), rule, "Statistics.__add__:median",
+              "median dropped (nan)", f"median combined as `{got('median')}`", add.where)
+
+
+def check_copy_stats(ctx, rule, m):
+    H1 = m.cls("Histogram1D")
+    cp = H1.methods.get("copy")
+    if cp is None:
+        raise AnalysisError("Histogram1D.copy not found")
+    ctx.saw(cp)
+    res = {}
+    for path in function_paths(cp.node):
+        if end_kind(path) != "return":
+            continue
+        inc = None
+        for s_ in path:
+            if s_[0] == "cond" and U(s_[1]) == "include_frequencies":
+                inc = s_[2]
+            if s_[0] == "cond" and U(s_[1]) == "not include_frequencies":
+                inc = not s_[2]
+        val = None
+        for s_ in path:
+            if s_[0] == "stmt":
+                for w in writes_of(s_[1]):
+                    if w.attr == "_stats" and w.root != "self":
+                        val = U(w.value)
+        res[inc] = val
+    ok_t = res.get(True) in ("dataclasses.replace(self.statistics)", "dataclasses.replace(self._stats)", "self._stats", "self.statistics")
+    ok_f = res.get(False) == "Statistics()"
+    ctx.check(ok_t and ok_f, rule, "Histogram1D.copy:statistics", "with frequencies: a copy of the source statistics; without: Statistics()",
+              f"copy(include_frequencies=True) stores `{res.get(True)}`, copy(include_frequencies=False) stores `{res.get(False)}`"
+              f"{' (no branch on include_frequencies: ' + str(res.get(None)) + ')' if None in res else ''} - an emptied copy must not report the old sums", cp.where)
+
+
 def run(ctx):
     m = ctx.model
     H1, HB, S = m.cls("Histogram1D"), m.cls("HistogramBase"), m.cls("Statistics")
@@ -191,21 +255,7 @@ def run(ctx):
     # ---- C14.c Statistics.__add__ and the median ---------------------------------------------------------------
     ctx.rule("C14.c", "Statistics.__add__ combines fields with + / min / max symmetrically and drops the median; fill drops "
              "the median; the kernel keeps it only for equal weights", 8)
-    add = S.methods.get("__add__")
-    ctx.saw(add)
-    o = [p for p in add.params() if p != "self"][0]
-    ctor = [c for c in calls_in(add.node) if U(c.func) == "Statistics" and c.keywords]
-    if not ctor:
-        raise AnalysisError("Statistics.__add__: Statistics(...) result not found")
-    kws = {k.arg: U(k.value) for k in ctor[-1].keywords}
-    for f in ("sum", "sum2", "weight"):
-        ctx.check(kws.get(f) in (f"self.{f} + {o}.{f}", f"{o}.{f} + self.{f}"), "C14.c", f"Statistics.__add__:{f}",
-                  f"{f} = self.{f} + other.{f}", f"{f} combined as `{kws.get(f)}`", add.where)
-    for f in ("min", "max"):
-        ctx.check(kws.get(f) in (f"{f}(self.{f}, {o}.{f})", f"{f}({o}.{f}, self.{f})"), "C14.c", f"Statistics.__add__:{f}",
-                  f"{f} = {f}(self.{f}, other.{f})", f"{f} combined as `{kws.get(f)}`", add.where)
-    ctx.check(kws.get("median") in ("np.nan", None) or "median" not in kws, "C14.c", "Statistics.__add__:median",
-              "median dropped (nan)", f"median combined as `{kws.get('median')}`", add.where)
+    check_stats_add(ctx, "C14.c", m)
     rk = {k.arg: U(k.value) for k in repl.keywords}
     ctx.check(rk.get("median") == "np.nan", "C14.c", "fill:median", "fill resets the median to nan",
               f"fill leaves median = `{rk.get('median')}` (stale after a single-value fill)", fill.where)
@@ -213,6 +263,10 @@ def run(ctx):
     okm = isinstance(kmed, ast.IfExp) and U(kmed.test) == "equal_weights" and "np.median(data_array)" in U(kmed.body) and U(kmed.orelse) == "np.nan"
     ctx.check(okm, "C14.c", "kernel:median", "median = np.median(data) only if the weights are all equal",
               f"kernel sets median = `{U(kmed) if kmed is not None else None}`", kern.where)
+
+    # ---- C14.d copy carries / resets the statistics --------------------------------------------------------------
+    ctx.rule("C14.d", "copy(): statistics duplicated with the frequencies, reset to empty Statistics() without them", 1)
+    check_copy_stats(ctx, "C14.d", m)
 
     # ---- C14.e invalid marker and constructor defaults -------------------------------------------------------------
     ctx.rule("C14.e", "INVALID_STATISTICS is all-NaN; a histogram built from bare frequencies gets it, an empty one gets zeros", 2)
@@ -240,3 +294,7 @@ def run(ctx):
                             bad.append(f"frequencies {'absent' if none else 'given'}: _stats = {t}")
     ctx.check(good >= 2 and not bad, "C14.e", "Histogram1D.__init__:stats-default",
               "no frequencies -> Statistics(); bare frequencies -> given stats or INVALID_STATISTICS", "; ".join(bad) or "stores not found", init.where)
+
+    # positive rescaling keeps mean / variance: per-field degrees of Statistics.__mul__ (shared with C06.a)
+    from rules import c06
+    c06.check_stats_mul(ctx, "C14.b", m)
